@@ -888,6 +888,63 @@ fn check_injection(lc: &Lc, inj_of: &dyn Fn(&str, &str) -> Option<Injection>, fm
     None
 }
 
+
+/// Legal but degenerate values (zero intervals with and without modulation, zero limits, a huge random delay, an
+/// empty window, the last base): whatever loading decides, it decides without a panic, and so does the first record.
+fn legal_degenerate(rep: &mut Report) {
+    let m = |v: Vec<(&str, Node)>| Node::Map(v.into_iter().map(|(k, n)| (k.to_string(), n)).collect());
+    let mut triggers: Vec<(String, Node)> = vec![];
+    for interval in [Node::Int(0), s("0"), s("0 seconds"), s("0 minutes"), s("0 hours"), s("0 days"), s("0 weeks"), s("0 months"), s("0 years"), s("1 hour")] {
+        for modulate in [None, Some(false), Some(true)] {
+            for delay in [None, Some(0i128), Some(u64::MAX as i128)] {
+                let mut t = vec![("kind", s("time")), ("interval", interval.clone())];
+                if let Some(b) = modulate {
+                    t.push(("modulate", Node::Bool(b)));
+                }
+                if let Some(d) = delay {
+                    t.push(("max_random_delay", Node::Int(d)));
+                }
+                triggers.push((format!("time interval={:?} modulate={:?} max_random_delay={:?}", interval, modulate, delay), m(t)));
+            }
+        }
+    }
+    triggers.push(("size limit 0".into(), m(vec![("kind", s("size")), ("limit", Node::Int(0))])));
+    triggers.push(("size limit '0 b'".into(), m(vec![("kind", s("size")), ("limit", s("0 b"))])));
+    triggers.push(("onstartup min_size 0".into(), m(vec![("kind", s("onstartup")), ("min_size", Node::Int(0))])));
+    let mut n = 0u64;
+    for (tdesc, trig) in &triggers {
+        for (rdesc, count, base) in [("window 2", 2i128, None), ("empty window", 0, None), ("last base", 1, Some(u32::MAX as i128)), ("window beyond u32", 2, Some(u32::MAX as i128))] {
+            for fmt in FORMATS {
+                n += 1;
+                let sb = Sandbox::new();
+                let mut roller = vec![("kind", s("fixed_window")), ("pattern", s(&format!("{}/y.{{}}.log", sb.dir.display()))), ("count", Node::Int(count))];
+                if let Some(b) = base {
+                    roller.push(("base", Node::Int(b)));
+                }
+                let tree = m(vec![
+                    ("appenders", m(vec![("y", m(vec![("kind", s("rolling_file")), ("path", s(&format!("{}/y.log", sb.dir.display()))), ("policy", m(vec![("trigger", trig.clone()), ("roller", m(roller))]))]))])),
+                    ("root", m(vec![("level", s("info")), ("appenders", Node::List(vec![s("y")]))])),
+                ]);
+                let path = sb.path(&format!("log4rs.{}", fmt));
+                std::fs::write(&path, render(&tree, fmt)).unwrap();
+                hooks::set_now(Some(super::rolling::clock_at(17)));
+                let r = catch_panic(|| {
+                    if let Ok(cfg) = log4rs::config::load_config_file(&path, capture::deserializers_with_capture()) {
+                        let logger = log4rs::Logger::new(cfg);
+                        logger.log(&Record::builder().target("t").level(log::Level::Warn).args(format_args!("first")).build());
+                        logger.log(&Record::builder().target("t").level(log::Level::Warn).args(format_args!("second")).build());
+                    }
+                });
+                if let Err(p) = r {
+                    rep.violation(format!("degenerate-legal-value:panic:{}", panic_site(&p)), format!("{} / {} [{}]: {}", tdesc, rdesc, fmt, p), json!({"kind": "degenerate", "trigger": tdesc, "roller": rdesc, "format": fmt}));
+                }
+            }
+        }
+    }
+    rep.add("evaluations", n);
+    rep.set("legal_degenerate_documents", n);
+}
+
 pub fn run(ctx: &Ctx) -> Report {
     let mut rep = Report::new("model_checking");
     rep.set(
@@ -1000,6 +1057,7 @@ pub fn run(ctx: &Ctx) -> Report {
     rep.add("distinct_nontrivial", n_faults);
     rep.set("fault_documents", n_faults);
     rep.set("fault_base_configurations", bases.len() as u64);
+    legal_degenerate(&mut rep);
     // file name selects the parser; anything else is an error, not a panic
     let lc = &cat[0];
     // (how unknown, missing or differently-cased extensions are treated is not the property's business: totality only)
